@@ -697,3 +697,90 @@ func replayAttrsCase(fam *Family, c *attrsCase, res *RunResult, rng *rand.Rand, 
 }
 
 func init() { Commands["replayattrs"] = cmdReplayAttrs }
+
+// cmdExtendSweep: build - use - extend - use, deterministically.  For every recipe of a loop family and every split point, the
+// first part is built, every small well-nested document over the family's start tags is sanitised, the rest of the recipe is
+// applied, and the same documents (and pairs nested in one another) are sanitised again and judged by the oracles.  Whatever
+// the library remembers about what a policy has seen must not survive an extension of the policy.
+func cmdExtendSweep(args []string) int {
+	fs := flag.NewFlagSet("extendsweep", flag.ExitOnError)
+	famPath := fs.String("fam", "", "")
+	propsS := fs.String("props", "", "")
+	_ = fs.Int64("seed", 1, "")
+	outPath := fs.String("out", "", "")
+	job := fs.String("job", "extendsweep", "")
+	fs.Parse(args)
+	fam, err := LoadFamily(*famPath)
+	if err != nil {
+		fmt.Fprintln(os.Stderr, "extendsweep:", err)
+		return 2
+	}
+	props := splitProps(*propsS)
+	res := &RunResult{Job: *job, Applicable: map[string]int{}}
+	seenV := map[string]bool{}
+	// the documents: <t>x</t> for every start token t (with its end tag if the family has one), and t1 around t2
+	starts := []Tok{}
+	hasEnd := map[string]bool{}
+	for _, t := range fam.Tokens {
+		dt := DecTok(t)
+		if dt.T == "end" {
+			hasEnd[dt.N] = true
+		}
+	}
+	for _, t := range fam.Tokens {
+		dt := DecTok(t)
+		if dt.T == "start" && hasEnd[dt.N] && !RawEls[dt.N] && !VoidEls[dt.N] {
+			starts = append(starts, dt)
+		}
+	}
+	docs := [][]Tok{}
+	for _, a := range starts {
+		docs = append(docs, []Tok{a, {T: "text", D: "x", A: []Attr{}}, {T: "end", N: a.N, A: []Attr{}}})
+		for _, b := range starts {
+			docs = append(docs, []Tok{a, b, {T: "text", D: "y", A: []Attr{}}, {T: "end", N: b.N, A: []Attr{}}, {T: "end", N: a.N, A: []Attr{}}})
+		}
+	}
+	for _, recipe := range fam.Recipes {
+		for k := 1; k < len(recipe); k++ {
+			b := &Builder{}
+			for _, c := range recipe[:k] {
+				c.norm()
+				b.Apply(c)
+			}
+			if b.P == nil {
+				continue
+			}
+			prior := [][]byte{}
+			for _, d := range docs {
+				in := Serialise(d, nil)
+				prior = append(prior, in)
+				b.P.SanitizeBytes(append([]byte{}, in...))
+			}
+			for _, c := range recipe[k:] {
+				c.norm()
+				b.Apply(c)
+			}
+			model := BuildAP(recipe)
+			for _, d := range docs {
+				in := Serialise(d, nil)
+				if !ReadsBackAs(in, d) {
+					continue
+				}
+				rec, out := RunRecorded(b.P, in)
+				res.Execs++
+				x := NewExec(recipe, model, b.P, in, out, rec)
+				x.ExtendAt, x.Prior = k, prior
+				res.judge(props, x, seenV)
+			}
+			res.Cases++
+		}
+	}
+	res.Nontrivial = res.Cases
+	if *outPath != "" {
+		os.WriteFile(*outPath, JSON(res), 0o644)
+	}
+	fmt.Printf("extendsweep: cases=%d execs=%d violations=%d\n", res.Cases, res.Execs, len(res.Violations))
+	return 0
+}
+
+func init() { Commands["extendsweep"] = cmdExtendSweep }
